@@ -644,6 +644,9 @@ class Torrent():
                 raise error.PieceSizeError(piece_length,
                                            min=self.piece_size_min,
                                            max=self.piece_size_max)
+            if self.metainfo['info'].get('piece length') != piece_length:
+                # Existing piece hashes were made with a different piece size
+                self.metainfo['info'].pop('pieces', None)
             self.metainfo['info']['piece length'] = piece_length
 
     @property
